@@ -25,9 +25,17 @@ def run(chk):
     leaves, na = an.leaves(ent)
     pa = pec_atom()
     n_combos = 0
+    n_un = 0
     MC = 0x00
     for i, lf in enumerate(leaves):
         sub = '%s leaf %d' % (ent, i)
+        if lf.kind == 'unanalysable':
+            fn, sp = local_site(prog, lf)
+            n_un += 1
+            chk.ob('C09.a', sub + ' (unanalysable path)', False, chk.key(ent, 'C09.a', fn, 'cannot-certify:' + lf.panic[1][:120]),
+                   'cannot certify: a path of the decoder cannot be analysed (%s)' % lf.panic[1], site=sp,
+                   detail={'leaf': dump_leaf(lf, prog, na, heap=False), 'call_path': call_path(lf)})
+            continue
         if lf.kind != 'return':
             continue   # C10
         fn, sp = local_site(prog, lf)
@@ -143,5 +151,5 @@ def run(chk):
                show='leaf [%s] -> %s agrees with the reference on every class it contains' % ('; '.join(guard_text(lf, na)[-4:]), show_value(lf.value, prog)))
     chk.evaluations += n_combos
     chk.extra['class_combinations_evaluated'] = n_combos
-    chk.floor('leaves of decode_packet', len(leaves), 100)
-    chk.floor('class combinations', n_combos, 1000)
+    chk.floor('leaves of decode_packet', len(leaves), 30)
+    chk.floor('class combinations (or reported unanalysable paths)', n_combos + 1000 * n_un, 1000)
